@@ -394,6 +394,33 @@ impl Session {
         }
     }
 
+    /// The ids of the deliveries known to this session that lie in `first..=last`, in order.
+    ///
+    /// Delivery ids are serial numbers (RFC 1982) that wrap around at 2^32, so a range may
+    /// span the wrap-around (`first > last` numerically). Only the deliveries actually
+    /// tracked are visited, so the cost does not depend on the width of the range named by
+    /// the peer.
+    fn delivery_ids_in_range(
+        &self,
+        role: &Role,
+        first: DeliveryNumber,
+        last: DeliveryNumber,
+    ) -> Vec<DeliveryNumber> {
+        let span = last.wrapping_sub(first);
+        if span > u32::MAX / 2 {
+            // `last` is before `first`
+            return Vec::new();
+        }
+        let mut ids: Vec<DeliveryNumber> = self
+            .delivery_tag_by_id
+            .keys()
+            .filter(|(r, id)| r == role && id.wrapping_sub(first) <= span)
+            .map(|(_, id)| *id)
+            .collect();
+        ids.sort_unstable_by_key(|id| id.wrapping_sub(first));
+        ids
+    }
+
     fn on_outgoing_transfer_inner(
         &mut self,
         input_handle: InputHandle,
@@ -826,7 +853,7 @@ impl endpoint::Session for Session {
         // in different mode. This counts the largest sections that can be echoed back together
         if disposition.settled {
             // If it is alrea
-            for delivery_id in first..=last {
+            for delivery_id in self.delivery_ids_in_range(&disposition.role, first, last) {
                 let key = (disposition.role.clone(), delivery_id);
                 if let Some((handle, delivery_tag)) = self.delivery_tag_by_id.remove(&key) {
                     if let Some(link_handle) = self.link_by_input_handle.get_mut(&handle) {
@@ -843,7 +870,7 @@ impl endpoint::Session for Session {
             Ok(None)
         } else {
             let mut delivery_ids = Vec::new();
-            for delivery_id in first..=last {
+            for delivery_id in self.delivery_ids_in_range(&disposition.role, first, last) {
                 let key = (disposition.role.clone(), delivery_id);
                 if let Some((handle, delivery_tag)) = self.delivery_tag_by_id.get(&key) {
                     if let Some(link_handle) = self.link_by_input_handle.get_mut(handle) {
